@@ -89,6 +89,33 @@ add("C17", "model_checking",
     "horizon 400 chooser calls (cuts counted); ownership of all random sources proved per execution by comparing RNG states.",
     "§3 C17")
 
-for _p in ["C03", "C04", "C05", "C06", "C07", "C08", "C09", "C12",
+add("C03", "model_checking",
+    "stateless deviation-bounded exploration of the real gen_coords over an enumerated option/topology space",
+    "Every [ molecules ] list of <=3 entries over four molecule types with counts 1-2, combined with box source (-box, two "
+    "densities), input structure (none, complete, partial prefix at atom or centre level), -res and grid options, is built by "
+    "the real gen_coords for every trajectory within one direction and one start-point deviation; the written .gro is compared "
+    "line by line with the reference expansion of the topology text and the box line with the requested / inherited / density box.",
+    "6 axis directions; density systems use 0.15 nm residues so that the cut-off stays below half the box; masses 72 per atom.",
+    "§3 C03")
+add("C04", "model_checking",
+    "stateless exploration of the real gen_coords over all supplied/missing splits under injected failure schedules",
+    "For two 3-4 molecule systems every prefix split of the residue list (atom level and centre level), every -res name, and an "
+    "ignored type at first/middle/last position is run under every schedule of <=2 injected step/attempt failures plus one "
+    "direction deviation. Supplied atoms must keep their input coordinates bit-exactly (memory) and string-exactly (file), "
+    "centre-only residues must be backmapped around their centre, and the set of residues that received a generated position "
+    "must be exactly the missing or named ones.",
+    "Input structures list supplied residues in topology order omitting -res residues; ignored molecules must themselves have coordinates.",
+    "§3 C04")
+add("C05", "model_checking",
+    "stateless deviation-bounded exploration of the real gen_coords with brute-force geometric monitors",
+    "On 15 systems (mixed sizes, branched/cyclic graphs, 2.5 nm dense boxes, an orthorhombic box, start points on the periodic "
+    "boundary, step factors, force limits, one off-lattice start point) every trajectory within 2 direction deviations and 1 "
+    "start deviation (thorough 3, diagonal bundles) is executed; at every accepted placement the monitor recomputes minimum-image "
+    "step length, containment in the box, the 0.1 nm floor against all positioned residues and the 12-6 force from positioned "
+    "non-neighbours within the cut-off.",
+    "Lattice direction bundles; sizes fixed via [ volumes ]; pairs exactly on the cut-off are don't-care.",
+    "§3 C05")
+
+for _p in ["C06", "C07", "C08", "C09", "C12",
            "C15", "C18", "C20"]:
     NOT_YET[_p] = "check under construction in this session (bounded exhaustive exploration applies; see DESIGN.md)"
